@@ -42,6 +42,8 @@ type c12Result struct {
 	Statuses   string   `json:"statuses"`
 	Delivered  int      `json:"delivered"`
 	CloseSeen  int      `json:"close_seen"`
+	Unjudged   int      `json:"unjudged"`
+	Landed     bool     `json:"landed"`
 	Ms         int64    `json:"ms"`
 }
 
@@ -189,8 +191,8 @@ func C12(r *core.Run) {
 		}
 	}
 	reps := r.Pick(20, 200)
-	for rep := 0; rep < reps; rep++ {
-		for si, s := range scheds {
+	for si, s := range scheds { // schedule-major, so that the round-robin sharding gives every worker process every schedule
+		for rep := 0; rep < reps; rep++ {
 			forced = append(forced, c12Case{ID: fmt.Sprintf("f%d-%d", si, rep), Kind: "forced", Pair: s.Pair, Sched: s.Name, Rep: rep})
 		}
 	}
@@ -254,7 +256,7 @@ func C12(r *core.Run) {
 	} else {
 		launch([]c12Case{idle}, 1, 1)
 		launch(hist, 7, 4)
-		launch(forced, 6, 1) // the hook scheduler is process-wide: one forced case at a time per process
+		launch(forced, 7, 1) // the hook scheduler is process-wide: one forced case at a time per process
 		launch(stress, 3, 1)
 	}
 	wg.Wait()
@@ -266,24 +268,36 @@ func C12(r *core.Run) {
 	statusMix := map[string]int{}
 	var maxMs int64
 	samples := 0
+	// Each kind of missed bound is re-run alone (bounds doubled) for up to three of its cases.
+	kindTried, kindConfirmed := map[string]int{}, map[string]bool{}
+	for _, res := range results {
+		if len(res.NoAnswer) == 0 {
+			continue
+		}
+		kind := res.NoAnswer[0]
+		if kindTried[kind] >= 3 || kindConfirmed[kind] {
+			continue
+		}
+		kindTried[kind]++
+		rr := run([]c12Case{all[res.ID]}, 1, 1, 2)
+		if len(rr) == 1 && len(rr[0].NoAnswer) > 0 {
+			kindConfirmed[kind] = true
+		}
+	}
 	for _, res := range results {
 		c := all[res.ID]
 		seen[res.ID] = true
-		if len(res.NoAnswer) > 0 {
-			rr := run([]c12Case{c}, 1, 1, 2)
-			if len(rr) != 1 || len(rr[0].NoAnswer) == 0 {
-				r.Inconclusive(fmt.Sprintf("case %s missed a progress bound once (%v) but not when re-run alone", c.ID, res.NoAnswer))
-				var keep []string
-				for _, v := range res.Violations {
-					if !strings.HasPrefix(v, "C12:no-answer") && !strings.HasPrefix(v, "C12:backend-not-closed") {
-						keep = append(keep, v)
-					}
+		if len(res.NoAnswer) > 0 && !kindConfirmed[res.NoAnswer[0]] {
+			r.Inconclusive(fmt.Sprintf("case %s missed a progress bound (%v) that was not missed again when such cases were re-run alone", c.ID, res.NoAnswer))
+			var keep []string
+			for _, v := range res.Violations {
+				if !strings.HasPrefix(v, "C12:no-answer") && !strings.HasPrefix(v, "C12:backend-not-closed") {
+					keep = append(keep, v)
 				}
-				res.Violations = keep
-			} else {
-				res = rr[0]
 			}
+			res.Violations = keep
 		}
+		r.Add("oracle_evaluations_skipped_after_repeated_misses", res.Unjudged)
 		switch c.Kind {
 		case "hist":
 			r.Case("history:" + strings.Join(c.Ops, ","))
@@ -298,6 +312,9 @@ func C12(r *core.Run) {
 				r.Case("unforced:" + key)
 			}
 			observedOrders[c.Pair+":"+res.Order] = true
+			if res.Landed {
+				r.Add("open_poll_polls_that_found_the_session_before_open_returned", 1)
+			}
 			statusMix[key+" -> "+res.Statuses]++
 		case "stress":
 			r.Case(fmt.Sprintf("stress:g=%d:%s", c.G, res.Statuses))
